@@ -450,7 +450,7 @@ fn srv_dir(srv: &Path, u: &uri::Rsync) -> PathBuf {
 /// CRL and one ROA on the fake rsync server if `publish[i]` (its certificate is always published).
 /// None = the server tree cannot hold both (a file where a directory is needed).
 fn build_real(root: &Path, dirs: &[uri::Rsync; 2], publish: [bool; 2]) -> Option<(WorldPaths, Vec<bytes::Bytes>, Vec<uri::Rsync>)> {
-    let paths = WorldPaths { conf: root.join("routinator.conf"), cache: root.join("cache"), tals: root.join("tals"), srv: root.join("srv"), rsync_log: root.join("rsync.log"), rsync_bin: std::env::current_exe().expect("exe").with_file_name("rvrsync") };
+    let paths = WorldPaths { conf: root.join("routinator.conf"), cache: root.join("cache"), tals: root.join("tals"), srv: root.join("srv"), rsync_log: root.join("rsync.log"), rsync_bin: std::env::current_exe().expect("exe").with_file_name("rvrsync"), rrdp_proxy: None };
     for d in [&paths.cache, &paths.tals, &paths.srv, &root.join("dump")] {
         std::fs::create_dir_all(d).unwrap();
     }
